@@ -148,11 +148,15 @@ package segread
 //@   safe
 //@   ensures result == (uint64(off) + uint64(n) <= uint64(len(buf)))
 //@ end
+// (C18 "never hang"): the walk over the entries of the file TERMINATES for every
+// content — each way back to the loop head has consumed at least one byte
+// (`decreases`: the bytes left), also the path taken for an unknown version byte.
 //@ func ReadSegStats
 //@   props C18
 //@   safe
 //@   loop 1:
-//@     invariant rIdx >= 1
+//@     invariant rIdx >= 1 && len(fdata) <= 4294967295
+//@     decreases len(fdata) - int(rIdx)
 //@ end
 //@ func readSingleSst
 //@   props C18
